@@ -209,7 +209,8 @@ class C16(runner.Check):
 			combos.append({"seq": b.choice(["fasta", "dict"]), "sig": b.choice(["bigwig",
 				"dict"]), "insig": b.choice(["bigwig", "dict"]), "loci": [b.choice(["bed",
 				"df"]) for _ in sets], "fasta_width": b.choice([7, 50, 60, 10000]),
-				"extra_cols": b.chance(0.4), "chroms_as": b.choice(["list", "tuple"])})
+				"extra_cols": b.chance(0.4), "chroms_as": b.choice(["list", "tuple"]),
+				"verbose": b.chance(0.15)})
 		return {"leg": "loci", "seed": seed, "chroms": chroms, "signals": signals,
 			"in_signals": in_signals, "sets": sets, "kw": kw, "combos": combos,
 			"single_set_unwrapped": len(sets) == 1 and r.chance(0.5)}
@@ -345,6 +346,37 @@ class C16(runner.Check):
 							"is not bit-equal to the stated probabilities (shape %r); %s" % (k,
 							a.shape, want.shape, desc), key=dict(key_base, kind="values"))
 						break
+		if status == "returned" and cut is None and not out.violations and expected:
+			# history: another document, then the first one again; nothing read
+			# earlier may be altered, nothing may be carried over
+			before = [(k, v.numpy().copy()) for k, v in res.items()]
+			other = [(m["name"], [[1.0 - x for x in row] for row in m["pwm"]][::-1])
+				for m in case["motifs"][::-1]]
+			fs.add("other.meme", genome.meme_text(other, case["layout"]).encode("utf-8"),
+				dict(case["io"]))
+			try:
+				with patched_open(self.tio, fs):
+					res2 = self.tio.read_meme("other.meme")
+					res3 = self.tio.read_meme("sim.meme", n_motifs=case["n_motifs"])
+				out.bump("probe.meme_read_again_after_other_file")
+				if [k for k, _ in before] != list(res.keys()) or any(
+						not numpy.array_equal(a, res[k].numpy()) for k, a in before):
+					out.violate("earlier_result_mutated", "the dictionary returned by the "
+						"first read_meme call was changed by later calls", key=dict(key_base,
+						kind="mutated"))
+				elif list(res3.keys()) != list(res.keys()) or any(res3[k].numpy().tobytes()
+						!= res[k].numpy().tobytes() for k in res):
+					out.violate("values_differ", "reading the same file again after another "
+						"file gives a different result; %s" % desc, key=dict(key_base,
+						kind="reread"))
+				elif [k.strip() for k in res2] != [n for n, _ in other] or any(
+						res2[k].numpy().tobytes() != numpy.array(M, dtype="float64").tobytes()
+						for k, (n, M) in zip(res2, other)):
+					out.violate("values_differ", "a second file read in the same process is "
+						"not returned exactly; %s" % desc, key=dict(key_base, kind="second"))
+			except Exception as e:
+				out.violate("raised", "second/third read_meme call raised %s: %s; %s" % (
+					type(e).__name__, str(e)[:150], desc), key=dict(key_base, kind="raised2"))
 		out.nontrivial = len(expected) > 0
 		out.digest = log.digest()
 		out.sample = {"leg": case["leg"], "seed": case.get("seed"), "n_motifs_in_file":
@@ -498,7 +530,8 @@ class C16(runner.Check):
 						in_signals=in_signals, chroms=chroms_arg, in_window=kw["in_window"],
 						out_window=kw["out_window"], max_jitter=kw["max_jitter"],
 						min_counts=kw["min_counts"], max_counts=kw["max_counts"],
-						target_idx=kw["target_idx"], n_loci=kw["n_loci"])
+						target_idx=kw["target_idx"], n_loci=kw["n_loci"],
+						verbose=bool(combo.get("verbose")))
 				finally:
 					for p in paths:
 						try:
